@@ -62,14 +62,24 @@ func c17Values(c *mon.Ctx, r *mon.Rand) {
 	if r.Bool() {
 		timerType = tprom.HistogramTimerType
 	}
-	rep := tprom.NewReporter(tprom.Options{Registerer: reg, DefaultTimerType: timerType, OnRegisterError: func(e error) { regErrs = append(regErrs, e.Error()) }})
+	popts := tprom.Options{Registerer: reg, DefaultTimerType: timerType, OnRegisterError: func(e error) { regErrs = append(regErrs, e.Error()) }}
+	if r.Chance(1, 3) {
+		popts.DefaultHistogramBuckets = []float64{0.001, 0.5, 1, 2.5, float64(r.Range(3, 100))}
+	}
+	if r.Chance(1, 3) {
+		popts.DefaultSummaryObjectives = map[float64]float64{0.5: 0.01, 0.9: 0.001}
+	}
+	if r.Chance(1, 4) {
+		popts.Gatherer = reg
+	}
+	rep := tprom.NewReporter(popts)
 	prefix := r.Pick("", "svc", "a_b")
 	rootTags := map[string]string{}
 	if r.Bool() {
 		rootTags["env"] = r.Pick("prod", "dev")
 	}
 	so := tprom.DefaultSanitizerOpts
-	root, _ := tally.VerifNewRootScope(tally.ScopeOptions{Prefix: prefix, Tags: rootTags, CachedReporter: rep, Separator: tprom.DefaultSeparator, SanitizeOptions: &so, OmitCardinalityMetrics: r.Bool()}, 0, uint(r.Range(1, 3)))
+	root, _ := vNewRoot(tally.ScopeOptions{Prefix: prefix, Tags: rootTags, CachedReporter: rep, Separator: tprom.DefaultSeparator, SanitizeOptions: &so, OmitCardinalityMetrics: r.Bool()}, 0, uint(r.Range(0, 3)))
 	type sc struct {
 		s      tally.Scope
 		prefix string
@@ -478,7 +488,7 @@ func c17Conflicts(c *mon.Ctx, r *mon.Rand) {
 	}
 	var sc tally.Scope
 	if viaScope {
-		sc, _ = tally.VerifNewRootScope(tally.ScopeOptions{CachedReporter: rep, Separator: "_", OmitCardinalityMetrics: true}, 0, 1)
+		sc, _ = vNewRoot(tally.ScopeOptions{CachedReporter: rep, Separator: "_", OmitCardinalityMetrics: true}, 0, 1)
 	}
 	run := func(step string, f func()) {
 		defer func() {
